@@ -74,6 +74,10 @@ CLAIMED = {
             "Every document of the C02 space (2 layouts + ladders), 9 escape kinds at every position of every string length <= 70 (key and value) and every accepted C08 line sequence: parse with copying, snapshot all read/marshal/serialize APIs, overwrite the input with 5 patterns: snapshot unchanged; no-copy parse of an intact buffer gives the same snapshot. Every history of <= 3 operations over {4 edits x 3 positions on original or clones, Clone into nil or into any existing object} on 3 seeds x 2 string modes: every object equals its own model after every step and after the input buffer is overwritten.",
             "Stream-delivered values are checked in C09.",
             "DESIGN.md 4.16"),
+    "C07": ("stateless model checking of the source-instrumented implementation under a controlled scheduler: all interleavings up to a preemption bound, and all interleavings with exact state-key pruning",
+            "The scratch copy of the package is rewritten (cmd/vinstr) so that go/chan/select/WaitGroup/atomic operations are scheduling points of vsched (one thread runs at a time; a second point after every receive lets a writer overtake a reader that already owns a slot). For 10 (thorough 11) documents above 8 KiB needing 6..40 index buffers (valid, stage-2 error in the first / last buffer, stage-1 error early / late, both, NDJSON with blank lines, tail without structurals, just above the threshold; aperiodic content so a slot reused too early changes the outcome) every interleaving of producer and consumer with <= 2 (3) preemptions is executed unpruned, and every interleaving outright with pruning on an exact state key. Outcome must equal the default schedule's, which is checked against the grammar model and reference tree; deadlock (no enabled thread), livelock (step horizon) and panics are violations.",
+            "Granularity = synchronisation operations; kernels between two points are atomic; plain-memory races / weak memory are not modelled (free-running -race pass in C20 supports data-race freedom). Layer B (TLA+ model + conformance) not built.",
+            "DESIGN.md 4.7"),
 }
 
 PENDING_REASON = "check not built yet in this round (planned, see DESIGN.md section 8); not claimed until its machinery exists"
@@ -109,6 +113,8 @@ m = {
         "add_only": True,
     },
     "engines": [
+        {"name": "vsched+vinstr+vexp", "path": "vsched/ cmd/vinstr/ vexp/ hsched/", "serves_properties": ["C07", "C09", "C20"],
+         "kind_free_text": "source-to-source instrumenter + controlled cooperative scheduler + choice-tree explorer (preemption-bounded DFS with prefix replay, state-key pruning, sharding)"},
         {"name": "vharness", "path": "harness/", "serves_properties": [c["property_id"] for c in checks],
          "kind_free_text": "driver + sharded worker processes; bounded-exhaustive enumerators over inputs/histories run on the real code and compared with reference models in ref/"},
     ],
